@@ -75,8 +75,8 @@ class Recorder:
 
 def run_case(spec, lines, out):
     def emit(line, obs):
-        lines.append(line)
-        out.append(obs)
+        lines.append(line.rstrip())
+        out.append(obs.rstrip())
 
     emit(f"case {spec['id']} dsm", f"case {spec['id']} dsm")
     items = spec["items"]
@@ -106,6 +106,27 @@ def run_case(spec, lines, out):
     emit(f"note cls {lt['cls']}", "ok")
     for pname, arr_ in model.prms.items():
         emit(f"note prm {pname} {nums(np.asarray(arr_, dtype=float))}", "ok")
+    # the parameters as given (by label) and what `cast_any_to_np_array` made of them: the model
+    # casts the same array to the model's dimensions (`cast_to`), the oracle expands it by label
+    import json as _json
+    from proto import fmt_arr, fmt_dim
+    for i, d in enumerate(dims.dim_list):
+        emit(f"dim ${i} {fmt_dim(d)}", "ok")
+    emit("dset $10 " + " ".join(f"${i}" for i in range(len(dims.dim_list))), "ok " + __import__("proto").fmt_dimset(dims))
+    for k, (pname, pspec) in enumerate(lt["prms"].items()):
+        emit("note prmspec " + pname + " " + _json.dumps(pspec, separators=(",", ":")).replace(" ", ""), "ok")
+        got = FlodymArray(dims=dims, values=np.asarray(getattr(model, pname), dtype=float))
+        if pspec["kind"] == "scalar":
+            emit(f"full ${40 + k} $10 {pspec['v']}", "ok " + fmt_arr(got))
+        else:
+            letters = list(dims.letters)
+            emit(f"dset ${20 + k} " + " ".join(f"${letters.index(l)}" for l in pspec["dims"]),
+                 "ok " + __import__("proto").fmt_dimset(dims.get_subset(tuple(pspec["dims"]))))
+            sub = dims.get_subset(tuple(pspec["dims"]))
+            from proto import fmt_shape
+            emit(f"arr ${30 + k} ${20 + k} {fmt_shape(sub.shape)} " + " ".join(pspec["vals"]),
+                 "ok " + fmt_arr(FlodymArray(dims=sub, values=np.array([frac(v) for v in pspec['vals']]).reshape(sub.shape))))
+            emit(f"castto ${40 + k} ${30 + k} $10", "ok " + fmt_arr(got))
     # ---- survival table, with the values scipy returned
     rec = Recorder(model)
     try:
@@ -115,7 +136,7 @@ def run_case(spec, lines, out):
         return
     for (q, c) in sorted(rec.calls, key=lambda k: (k[1], k[0])):
         ages, vals = rec.calls[(q, c)]
-        a1 = ages.reshape(ages.shape[0], -1)[:, 0]
+        a1 = ages.reshape(ages.shape[0], -1)[:, 0] if ages.size else np.zeros(0)
         emit(f"sval {q} {c} {nums(vals)}", f"ok A {nums(a1)}")
     emit("sf", "ok " + nums(sf))
     emit("pdf", "ok " + nums(model.pdf))
